@@ -258,6 +258,7 @@ def e2eScenario (rest : List String) : Option System.Scenario :=
     some { up := e2eSizes up, down := [ (e2eSizes down).flatten ], targetClosesFirst := kv rest "close" == some "target",
            preamble := if kv rest "kind" == some "http" then [[80, 79, 83, 84]] else [],
            target := target, cutAfter := (kv rest "cut").bind String.toNat?,
+           appEarly := kv rest "close" == some "app-early",
            resetApp := kv rest "reset" == some "app", resetTarget := kv rest "reset" == some "target" }
   | _, _ => none
 
